@@ -144,7 +144,12 @@ func init() {
 		if err != nil {
 			return w.viol("bulk.error", "iterating the source map failed: %v", err)
 		}
-		c := &MCont{CID: st.CID, IsMap: true, Type: *st.T, Owner: src.Owner, Dig: src.Dig, Seed: sm.Seed(), Volatile: src.Owner == 0}
+		bulkOwner := src.Owner
+		if st.Keep {
+			bulkOwner = st.Owner // built under another owner than its source (same seed, same order)
+			w.Stats.Inc("bulk.cross-owner")
+		}
+		c := &MCont{CID: st.CID, IsMap: true, Type: *st.T, Owner: bulkOwner, Dig: src.Dig, Seed: sm.Seed(), Volatile: bulkOwner == 0}
 		if (st.Sub == "dup" || st.Sub == "swap") && len(stream) >= 2 {
 			// a faulty element stream (duplicated delivery / reordering of two neighbours), built into a scratch
 			// storage: the build may refuse it, but whatever it accepts must be a valid map
@@ -175,7 +180,7 @@ func init() {
 			}
 		}
 		i := 0
-		m, err := atree.NewMapFromBatchData(w.Storage, OwnerAddress(src.Owner), w.digBuilder(c), *st.T, w.cmp, w.hip, sm.Seed(), func() (atree.Value, atree.Value, error) {
+		m, err := atree.NewMapFromBatchData(w.Storage, OwnerAddress(bulkOwner), w.digBuilder(c), *st.T, w.cmp, w.hip, sm.Seed(), func() (atree.Value, atree.Value, error) {
 			if i >= len(stream) {
 				return nil, nil, nil
 			}
@@ -238,15 +243,24 @@ func init() {
 		c.CID = st.CID
 		c.Parent = nil
 		c.Detached = false
+		// the copy may live under another owner than its source (a temporary-owner value copied into an account,
+		// an account's value copied into a scratch area): it keeps the source's content, and a map its seed
+		copyOwner := src.Owner
+		if st.Keep {
+			copyOwner = st.Owner
+			w.Stats.Inc("copy.cross-owner")
+		}
+		c.Owner = copyOwner
+		c.Volatile = copyOwner == 0
 		var nv atree.Value
 		var err error
 		if src.IsMap {
 			var m *atree.OrderedMap
-			m, err = h.(*atree.OrderedMap).CopyNonRefSimple(OwnerAddress(src.Owner), w.digBuilder(src))
+			m, err = h.(*atree.OrderedMap).CopyNonRefSimple(OwnerAddress(copyOwner), w.digBuilder(src))
 			nv = m
 		} else {
 			var a *atree.Array
-			a, err = h.(*atree.Array).CopyNonRefSimple(OwnerAddress(src.Owner))
+			a, err = h.(*atree.Array).CopyNonRefSimple(OwnerAddress(copyOwner))
 			nv = a
 		}
 		if err != nil {
@@ -366,6 +380,10 @@ func init() {
 		if g.R.Chance(0.5) {
 			st.End = uint64(g.R.Range(20, 150)) // burst of insertions right after the build
 		}
+		if g.R.Chance(0.3) {
+			st.Keep = true
+			st.Owner = g.P.Owners[g.R.Intn(len(g.P.Owners))]
+		}
 		return st, true
 	}
 	extraGens["copy"] = func(g *Gen) (Step, bool) {
@@ -373,7 +391,12 @@ func init() {
 		if c == nil || len(g.W.Model.Roots()) >= g.P.MaxRoots+3 {
 			return Step{}, false
 		}
-		return Step{Op: "copy", C: c.CID, CID: g.cid()}, true
+		st := Step{Op: "copy", C: c.CID, CID: g.cid()}
+		if g.R.Chance(0.3) {
+			st.Keep = true
+			st.Owner = g.P.Owners[g.R.Intn(len(g.P.Owners))]
+		}
+		return st, true
 	}
 	extraGens["bytes.toarr"] = func(g *Gen) (Step, bool) {
 		if len(g.W.Model.Roots()) >= g.P.MaxRoots+3 {
